@@ -291,7 +291,9 @@ def work_fuzz(bins, seed, n, flags):
         if r["exit"] == 0:
             st["exit0"] += 1
             sc = argv[0] if argv else ""
-            single = sc in ("version", "flow", "render") and not any(a.startswith("--output-template") for a in argv) and "--output-format" not in " ".join(argv).replace("=", " ").split()
+            toks = " ".join(argv).replace("=", " ").split()
+            ofmt = [toks[i + 1].lower() for i, t_ in enumerate(toks[:-1]) if t_ == "--output-format"]
+            single = sc in ("version", "flow", "render") and not any(a.startswith("--output-template") for a in argv) and all(f_ in ("semver", "pep440") for f_ in ofmt)
             if single and not any(a in ("--help", "-h") for a in argv) and not any("\n" in a or "\r" in a for a in argv):
                 body = r["out"]
                 if body.count("\n") != 1 or not body.endswith("\n"):
